@@ -21,6 +21,7 @@ func C15(c *core.Ctx) {
 	c.Rule("C15-R3", "bulk loop and processRequest shape", 9)
 	cg := buildCallers(c.P)
 	c15Globals(c, cg)
+	c15Aliases(c, cg)
 	c15Definitions(c, cg)
 	c15ReadOnlyEvaluation(c, cg)
 	c15Bulk(c)
